@@ -267,8 +267,23 @@ def run(prop, tier):
             for co in obj.covouts.values():
                 co.sigma = None
 
+    def behaviour(obj):
+        """What a simulation reads from a (sampled) parameter set / program set: interpolated parameter values; spending, unit costs, constraints
+        and the outcome of every effect row at a fixed coverage (through Covout.get_outcome, i.e. the cached combination outcomes)."""
+        tt = np.array([2016.0, 2017.5, 2019.0])
+        if hasattr(obj, "all_pars"):
+            return [[str(k), [float(x) for x in np.ravel(par.interpolate(tt, k))]] for par in obj.all_pars() for k in par.ts.keys() if par.ts[k].has_data]
+        out = []
+        for prog in obj.programs.values():
+            for ts in (prog.spend_data, prog.unit_cost, prog.capacity_constraint, prog.saturation, prog.coverage):
+                out.append([float(x) for x in np.ravel(ts.interpolate(tt))] if ts.has_data else None)
+        for key, co in obj.covouts.items():
+            if len(co.progs):
+                out.append([str(key), float(co.get_outcome({k_: np.array([0.6]) for k_ in co.progs}))])
+        return out
+
     singles = []
-    for name in (["udt"] + (["tb_simple", "hiv"] if thorough else [])):
+    for name in (["udt", "tb"] + (["tb_simple", "hiv"] if thorough else [])):
         Q = at.demo(name, do_run=False)
         q0 = Q.parsets[0]
         clear(q0)
@@ -289,7 +304,7 @@ def run(prop, tier):
                     ts.t, ts.vals, ts.assumption = [2016.0, 2018.0], [0.0, 0.0], None
                 ts.sigma = 0.1
                 singles.append((dict(model=name, source="parameter set", quantity="%s %s (%s)" % (gname, par.name, pop), form=form), q))
-        if Q.progsets:
+        if Q.progsets and name != "tb":
             g0 = sc.dcp(Q.progsets[0])
             clear(g0)
             pname = list(g0.programs.keys())[0]
@@ -307,7 +322,7 @@ def run(prop, tier):
                         ts.t, ts.vals, ts.assumption = [], [], 0.0
                     ts.sigma = 0.1
                     singles.append((dict(model=name, source="program set", quantity="%s of %s" % (attr, pname), form=form), g))
-            for key in list(g0.covouts.keys())[:2]:
+            for key in [k_ for k_, co_ in g0.covouts.items() if len(co_.progs)][:2]:  # (an effect row without any program outcome has nothing to perturb)
                 g = sc.dcp(g0)
                 g.covouts[key].sigma = 0.05
                 singles.append((dict(model=name, source="program set", quantity="outcomes of %s" % (key,), form="as entered"), g))
@@ -315,7 +330,7 @@ def run(prop, tier):
         before = DG.dig(obj)
         np.random.seed(C.seed() + rid)
         try:
-            digs = [DG.dig(obj.sample()) for _ in range(3)]
+            digs = [DG.dig(behaviour(obj.sample())) for _ in range(3)]
         except Exception as ex:  # a valid parameter set / program book that cannot be sampled
             records.append(dict(id=rid, kind="book", ok=False))
             index[rid] = dict(kind="single uncertain quantity: %s, %s" % (label["source"], label["form"]), error="%s: %s" % (type(ex).__name__, str(ex)[:150]), **label)
